@@ -300,7 +300,10 @@ func addFieldSelectionsWithCycleDetection(fieldsForName map[string][]fieldAndPar
 	}
 
 	if _, ok := visited[selectionSet]; ok {
-		return newSecondaryError(selectionSet, "cycle detected")
+		// Already collected: a fragment spread more than once (directly or through other
+		// fragments) contributes its fields once. Genuine cycles are reported by the fragment
+		// rules; stopping here also keeps the collection finite for them.
+		return nil
 	}
 	visited[selectionSet] = struct{}{}
 
